@@ -774,6 +774,9 @@ class OpsMixin:
             if isinstance(idx, Cst) and idx.value == -1 and base.kind == "list":
                 if base.known:
                     return base.known[-1]
+                if not self.truth(base):
+                    self.events.append(("index-error", f"{base.desc}[-1] on an empty list", self.cur_site))
+                    raise PathAbort("IndexError")
                 return self.scoll_elem(base, "-1" if not base.popped else f"-1~{base.popped}")
             return self.scoll_elem(base, self.describe(idx))
         if isinstance(base, (Unknown, SVal)):
